@@ -1500,9 +1500,6 @@ func (self *LockDB) GetLockManager(command *protocol.LockCommand) *LockManager {
 		if fastLockManager != nil && fastLockManager.lockKey == command.LockKey && atomic.LoadUint32(&fastLockManager.refCount) != 0xffffffff {
 			return fastLockManager
 		}
-		if atomic.LoadUint32(&fastValue.count) <= 1 {
-			return nil
-		}
 	} else if fastValueLock == 1 {
 		for i := 1; atomic.LoadUint32(&fastValue.lock) == 1; i++ {
 			for j := uint16(0); j < self.managerMaxGlocks; j++ {
@@ -1515,10 +1512,8 @@ func (self *LockDB) GetLockManager(command *protocol.LockCommand) *LockManager {
 		if fastLockManager != nil && fastLockManager.lockKey == command.LockKey && atomic.LoadUint32(&fastLockManager.refCount) != 0xffffffff {
 			return fastLockManager
 		}
-		if atomic.LoadUint32(&fastValue.count) <= 1 {
-			return nil
-		}
-	} else if atomic.LoadUint32(&fastValue.count) == 0 {
+	}
+	if atomic.LoadUint32(&fastValue.count) == 0 {
 		return nil
 	}
 
